@@ -80,7 +80,7 @@ Do(op) == /\ InRange(op, seq, i)
 Next == Len(hist) < MaxHist /\ \E op \in Ops : Do(op)
 Spec == Init /\ [][Next]_bvars
 
-View == <<seq, i, prev, last>>      \* one witness path per (state, previous op, op)
+View == <<seq, i, prev.k, last>>    \* one witness path per (state, kind of the previous op, op)
 View1 == <<seq, i, last>>           \* one witness path per (state, op)
 
 (* ---- the property, as invariants / action properties of the model ---- *)
